@@ -23,6 +23,10 @@ import (
 
 const patience = 20 * time.Second
 
+// stuckOnce: a step did not happen within `patience`; goroutines may be left behind, so the driver stops after
+// this scenario (its log already carries the `stuck` event that the trace spec rejects)
+var stuckOnce bool
+
 type event struct {
 	at uint64
 	m  map[string]interface{}
@@ -142,6 +146,7 @@ func runScenario(sc scenario, out func(map[string]interface{})) {
 	}
 	stuck := func(what string) {
 		r.log(map[string]interface{}{"ev": "stuck", "what": what})
+		stuckOnce = true
 	}
 	ok := true
 	select {
@@ -249,10 +254,12 @@ func timedScenario(rng *rand.Rand, out func(map[string]interface{})) {
 		select {
 		case <-done:
 		case <-time.After(patience):
+			stuckOnce = true
 			r.log(map[string]interface{}{"ev": "stuck", "what": "a Go call did not return after a slot was freed"})
 			ok = false
 		}
 		if ok && !await(func() bool { return int(atomic.LoadInt32(&entered)) == n+1 }) {
+			stuckOnce = true
 			r.log(map[string]interface{}{"ev": "stuck", "what": "the extra function never started"})
 			ok = false
 		}
@@ -326,6 +333,7 @@ func churnScenario(rng *rand.Rand, k int, out func(map[string]interface{})) {
 	case <-waitDone:
 		r.log(map[string]interface{}{"ev": "end", "submitted": k + 1})
 	case <-time.After(patience):
+		stuckOnce = true
 		r.log(map[string]interface{}{"ev": "stuck", "what": "Wait did not return although every function ended"})
 	}
 	r.mu.Lock()
@@ -365,6 +373,9 @@ func main() {
 			sc.Order[i]++
 		}
 		sc.WaitAt = k // (Wait concurrent with Go is a misuse of the underlying WaitGroup: never done)
+		if stuckOnce {
+			break
+		}
 		if s%40 == 7 {
 			churnScenario(rng, 300, func(m map[string]interface{}) {
 				b, _ := json.Marshal(m)
@@ -396,6 +407,9 @@ func main() {
 		})
 		if s < 2 {
 			samples = append(samples, tr)
+		}
+		if stuckOnce {
+			break
 		}
 	}
 	b, _ := json.Marshal(map[string]interface{}{"scenarios": *n, "events": events, "samples": samples, "wall_s": time.Since(t0).Seconds()})
